@@ -3,6 +3,7 @@
 #pragma once
 #include <cxxabi.h>
 #include <signal.h>
+#include <sys/time.h>
 #include <sqlite3.h>
 #include <unistd.h>
 
@@ -58,10 +59,11 @@ inline void raw_line(const char* s)
 inline void on_signal(int sig)
 {
     char buf[256];
-    const char* what = sig == SIGALRM ? "hang" : "died";
+    const bool hang = sig == SIGALRM || sig == SIGPROF;
+    const char* what = hang ? "hang" : "died";
     snprintf(buf, sizeof buf, "{\"e\":\"%s\",\"sig\":%d,\"in\":\"%s\",\"after\":%ld}\n", what, sig, g_current_op, g_records);
     raw_line(buf);
-    _exit(sig == SIGALRM ? 97 : 98);
+    _exit(hang ? 97 : 98);
 }
 
 inline void on_terminate()
@@ -77,15 +79,25 @@ inline void install_handlers()
     struct sigaction sa;
     memset(&sa, 0, sizeof sa);
     sa.sa_handler = on_signal;
-    for (int s : {SIGSEGV, SIGBUS, SIGFPE, SIGILL, SIGABRT, SIGALRM})
+    for (int s : {SIGSEGV, SIGBUS, SIGFPE, SIGILL, SIGABRT, SIGALRM, SIGPROF})
         sigaction(s, &sa, nullptr);
     std::set_terminate(on_terminate);
 }
 
 struct call_guard
 {
-    explicit call_guard(const char* op) { g_current_op = op; alarm(g_watchdog_s); }
-    ~call_guard() { alarm(0); }
+    // The watchdog counts the CPU time of this process (a call that does not terminate burns it), so that a verdict does not depend
+    // on how busy the machine is; a wall-clock alarm thirty times as long is the backstop for a call that blocks without computing.
+    static void arm(int secs)
+    {
+        struct itimerval it;
+        memset(&it, 0, sizeof it);
+        it.it_value.tv_sec = secs;
+        setitimer(ITIMER_PROF, &it, nullptr);
+        alarm(secs > 0 ? (unsigned)secs * 30u : 0u);
+    }
+    explicit call_guard(const char* op) { g_current_op = op; arm(g_watchdog_s); }
+    ~call_guard() { arm(0); }
 };
 
 // ---------------------------------------------------------------- exceptions
